@@ -23,6 +23,25 @@ def app(prop, theorems, explanation, assumptions, facts=None):
 
 
 PROPS = {
+    "C06": {
+        "module": "Shutter.Properties.C06",
+        "theorems": ["C06_gnosis_iff", "C06_tamper", "C06_service_unsigned", "C06_service_signed"],
+        "driver": {"pkg": "./cmd/sgcheck"},
+        "trusted_base": [KERNEL, CORR,
+                         "modelled, not verified: ECDSA public-key recovery (abstract `recover`), the SSZ hash tree root (injective: the signed "
+                         "data stands for its digest; fails on identity preimages of the wrong size), KeyperSet.GetSubset/DecodeAddress",
+                         "hypothesis Binding (a signature recovering to a keyper over one message does not recover to that keyper over "
+                         "another) stands for ECDSA unforgeability in C06_tamper"],
+        "explanation": "Theorems (Lean) for an arbitrary signature scheme: the Gnosis validator accepts IFF the message names exactly "
+                       "threshold signers, strictly increasing, inside the set, one signature per signer, each recovering to that signer "
+                       "over (instance, eon, slot, tx pointer, identities); tampering with the signed data invalidates under Binding; the "
+                       "service flavour admits the both-empty case and otherwise obeys the same rule. The real validators of both "
+                       "flavours are driven with real ECDSA keys exhaustively for small keyper sets and sampled above, compared with the "
+                       "model, checked against an independent reading of 'genuine threshold' (signature verification instead of "
+                       "recovery), and accepted messages are tampered field by field.",
+        "assumptions": ["len(SignerIndices) < 2^31 (the int32 cast of the length)",
+                        "the access-node and keyper validators reach ValidateDecryptionKeysSignatures with the keyper set named by the message's eon (exercised in C03/C04 rigs)"],
+    },
     "C18": {
         "module": "Shutter.Properties.C18",
         "theorems": ["C18_blocked", "C18_tables_wellformed", "C18_write_ops_pinned", "C18_setup_pinned", "C18_embedded_is_yaml", "C18_blocked_now",
